@@ -112,7 +112,8 @@ type Frame struct {
 	noFrame    bool
 	splitWhere []string
 	inDup      bool
-	dbg        map[string][]ssa.Value // source names of plain SSA values (from DebugRef), in execution order
+	ghostHdr   map[string]*ssa.BasicBlock // loop ghost variable -> header of its loop
+	dbg        map[string][]ssa.Value     // source names of plain SSA values (from DebugRef), in execution order
 }
 
 func (f *Frame) where(pos token.Pos) string {
